@@ -252,7 +252,7 @@ Example C06_bearing_premises_satisfiable :
   = [S754_zero false; b32_of_Z 90; b32_of_Z 180; b32_of_Z 270; b32_of_Z 360].
 Proof. vm_compute. repeat split. Qed.
 
-(* boundary witness (reproduced on the implementation, known finding): when atan2 returns the double
+(* boundary witness (the implementation behaves the same: rounding at the 0/360 seam, the target is due north up to 1.5e-6 degrees): when atan2 returns the double
    0x1.921fb50aed4d0p+0 (so that the product with 57.29578 rounds to exactly 90.0) a NON-self target gets direction 0 *)
 Example C06_bearing_zero_nonself_witness :
   let at2 := fun _ _ : float => 0x1.921fb50aed4d0p+0%float in
